@@ -90,7 +90,10 @@ def verify_case(repo, qualname, case_index, timeout_ms=10000, want_models=True, 
             if only_names is not None and o.name not in only_names:
                 continue
             ax = list(axioms) + axioms_for(o)
-            r = solve.discharge(o, timeout_ms=timeout_ms, axioms=ax, want_model=want_models)
+            # three retries have failed already: this (function, case) no longer matches its contract and
+            # is going to be reported; the remaining obligations get a short budget
+            r = solve.discharge(o, timeout_ms=timeout_ms if n_retries[0] < 3 else min(timeout_ms, 3000), axioms=ax,
+                                want_model=want_models)
             if r.status == 'unknown' and n_retries[0] < 3:
                 # second pass with a generous budget: a slow query must not flip the verdict when
                 # all cores are busy
